@@ -382,6 +382,7 @@ func init() {
 		rc.Probes["family-"+family]++
 
 		if family == "time" {
+			sc.ScanBuf = 0 // seconds of latency per read: keep the number of reads small
 			// whole seconds pass between reads
 			for i := range sc.Inputs {
 				sc.Inputs[i].Plan.LatPermille = []int{300, 700, 1000}[t.F(3)]
@@ -392,7 +393,7 @@ func init() {
 		}
 		// consumption instants per match
 		t0 := time.Time{}
-		out := runPipeHook(rc, sc, simrt.Opts{MaxSteps: 150000, IdleLimit: time.Hour, FreeLimit: 10 * time.Minute}, func() { t0 = time.Now() })
+		out := runPipeHook(rc, sc, simrt.Opts{MaxSteps: 150000, IdleLimit: time.Hour, FreeLimit: 24 * time.Hour}, func() { t0 = time.Now() })
 		for k := range funclib.Additional {
 			delete(funclib.Additional, k)
 		}
